@@ -2230,3 +2230,68 @@ def _natural_loops(b):
             stack.extend(q for q in b.pred(x) if q in nb)
         out.append((h, body, latches))
     return out
+
+
+def workers_own_tree_lock_is_not_a_reader(ctx, p):
+    """F75. Whether a commit may share nodes with a tree that is queued for removal is decided by testing the registered reader's
+    lock (RwLock::is_locked). The log worker takes that very lock (write) while it walks a tree it removes: without a way to tell
+    the two apart, a commit made during the walk marks the tree as used, and the NEXT queued removal of the same root is postponed
+    behind later commits although no client holds a reader - commit order is broken for histories without any reader lock. The
+    worker therefore announces its own lock (a field of the tree registry written before `tree.write()` in the removal walk and
+    cleared after the guard is gone, on every path), and the marking decision reads that announcement."""
+    F = ctx.F
+    wpl = ctx.body('db::IndexedChangeSet::write_plan')
+    if not wpl:
+        return
+    fam = lib.family(F, wpl.path)
+    announce = {}     # field -> [(body, block)]
+    clears = {}
+    locks = []
+    for b in fam:
+        for bi, t in b.calls():
+            if bi not in b.normal_blocks() or not t['a']:
+                continue
+            if call_matches(t, ['re:RwLock.*::write$']) and 'TreeReader' in str(t.get('rty', '')):
+                locks.append((b, bi))
+            fl = [f for f in lib.receiver_fields(b, t, 0) if f.startswith('.Trees.') and f not in ('.Trees.readers', '.Trees.to_dereference')]
+            if fl and call_matches(t, ['re:(HashSet|HashMap|BTreeSet|BTreeMap).*::insert$']):
+                announce.setdefault(fl[0], []).append((b, bi))
+            if fl and call_matches(t, ['re:(HashSet|HashMap|BTreeSet|BTreeMap).*::remove$']):
+                clears.setdefault(fl[0], []).append((b, bi))
+    ctx.ob(p + '0 removal-walk-lock-anchor', 'anchor', wpl.path, 'the removal walk takes the write lock of the tree reader', len(locks) >= 1, str([(b.path, s) for b, s in locks]))
+    ok_fields = set()
+    def no_registry_entry_edges(b):
+        # `if let Some(trees) = db.trees.write().get_mut(&col)`: a column without a registry entry has no registered reader either
+        out = set()
+        for bi in b.normal_blocks():
+            t = b.term(bi)
+            d = lib.switch_def(b, bi)
+            if t['k'] == 'switch' and d and d[2] == 'assign' and d[3]['r']['k'] == 'discr':
+                sl = backward_slice(b, [d[3]['r']['p']])
+                if '.DbInner.trees' in sl.fields and any(re.search(r'HashMap.*::get(_mut)?$', c) for c in sl.calls):
+                    for v, tg in zip(t['vals'], t['ts']):
+                        if v == 0:
+                            out.add((bi, tg))
+                    if t['vals'] == [1]:
+                        out.add((bi, t['ts'][-1]))
+        return frozenset(out)
+    for (b, lk) in locks:
+        cut = no_registry_entry_edges(b)
+        for f, sites in announce.items():
+            before = [s for bb, s in sites if bb is b and b.find_path([0], {lk}, removed={s}, removed_edges=cut, sensitive=False) is None]
+            after = [s for bb, s in clears.get(f, []) if bb is b]
+            cleared = bool(after) and lib.ok_return_unreachable_avoiding(b, after, sources=[lk], removed_edges=cut, cut_errors=False) is None
+            if before and cleared:
+                ok_fields.add(f)
+    ctx.ob(p + 'a worker-announces-its-own-tree-lock', 'K2-order', wpl.path,
+           'before the removal walk write-locks a tree reader it records the tree in the registry, and removes the record again on every path after the lock (also when the walk fails)',
+           bool(ok_fields), 'announcements %s, clears %s' % (sorted(announce), sorted(clears)))
+    # the marking decision reads it
+    msites = [(b, x) for b in F.bodies.values() for x, t in b.calls() if x in b.normal_blocks() and call_matches(t, ['re:HashSet.*::insert$', 're:HashSet.*::extend$'])
+              and t['a'] and '.IndexedChangeSet.used_trees' in lib.receiver_fields(b, t, 0)]
+    for b, x in msites:
+        calls, fields, binops = lib.guard_influences(b, x)
+        fields = set(fields) | lib.closure_fields(F, lib.shallow_calls(F, calls, owner=b.path))
+        ctx.ob(p + 'b marking-tells-the-workers-lock-from-a-reader %s' % lib.strip_closures(b.path), 'K3-guard', b.path,
+               'the decision to mark a tree as used (a test of the reader\'s lock) also reads the worker\'s announcement: a lock held by the removal walk itself does not count as a reader',
+               bool(ok_fields & fields), 'the decision reads %s' % sorted(f for f in fields if f.startswith('.Trees.')), b.loc(x))
